@@ -38,7 +38,12 @@ Inductive sstate :=
 
 Inductive sending := SEndOk | SEmptyKey | SNoEquals | SUnbalanced.
 
-Definition blank (c : N) : bool := tbl tbl_iswhite c.
+(* the blanks: space, TAB, LF, CR *)
+Definition blank (c : N) : bool := (c =? 32) || (c =? 9) || (c =? 10) || (c =? 13).
+
+(* "Only argument indexes from 0 to 63 should be accepted"; the length limit of a rule text *)
+Definition SPEC_MAX_ARG : N := 63.
+Definition SPEC_MAX_RULE_LENGTH : N := 1024.
 
 (* one character; Some (state', finished item) or None with the reason *)
 Inductive sres := SGo (s : sstate) (emit : option token) | SStop (why : sending).
@@ -154,7 +159,7 @@ Definition spec_arg_key (key : bytes) : option (N * argkind) :=
   if negb (canonical_numeral d) then None else
   if 2 <? nlen d then None else                      (* at most two digits can be <= 63 *)
   let n := dec_value d 0 in
-  if DBUS_MAXIMUM_MATCH_RULE_ARG_NUMBER <? n then None else
+  if SPEC_MAX_ARG <? n then None else
   match suffix with
   | [] => Some (n, ArgString)
   | _ => if bytes_eqb suffix S_path then Some (n, ArgPath)
@@ -226,7 +231,7 @@ Inductive spec_parse_result := SPLimits | SPInvalid | SPOk (r : srule).
 
 (* AddMatch / RemoveMatch argument -> rule *)
 Definition spec_parse (owner : conn) (text : bytes) : spec_parse_result :=
-  if DBUS_MAXIMUM_MATCH_RULE_LENGTH <? nlen text then SPLimits else
+  if SPEC_MAX_RULE_LENGTH <? nlen text then SPLimits else
   match spec_tokens text with
   | (ts, SEndOk) => if items_ok ts then SPOk (mkSRule owner (eaves_of ts false) (constraints_of ts)) else SPInvalid
   | _ => SPInvalid
